@@ -35,6 +35,18 @@ def run (l : VMLayout) (debug : Bool) (args : List String) : String :=
       joinWith ";" (ds.map fun raw =>
         s!"{raw}:{showBool (isEmpty raw)}:{showBool (isContiguous raw)}:{showBool (isContiguousHi raw)}:{getIndex raw}")
     | _, _ => "bad-op"
+  -- `threads` real threads create `per` descriptors each; every create is one atomic fetch-add, so any interleaving
+  -- hands out exactly the descriptors of `threads * per` sequential creates (the harness prints them sorted)
+  | ["discrace", c, t, per] =>
+    match num? c, num? t, num? per with
+    | some c, some t, some per =>
+      if t == 0 || t > 32 || per == 0 || t * per > 100000 then "bad-op" else
+      match discontigRun debug (t * per) c with
+      | none => "panic:assert"
+      | some ds =>
+      joinWith ";" (ds.map fun raw =>
+        s!"{raw}:{showBool (isEmpty raw)}:{showBool (isContiguous raw)}:{showBool (isContiguousHi raw)}:{getIndex raw}")
+    | _, _, _ => "bad-op"
   | _ => "bad-op"
 
 end Driver.Layout.Desc
